@@ -148,6 +148,8 @@ def canon_ref(v):
     if isinstance(v, (refvm.Fn, refvm.NamedFn)):
         return ("f",)
     if isinstance(v, list):
+        if len(v) > 64:
+            return ("l", tuple(canon_ref(x) for x in v[:64]) + (("...",),))
         return ("l", tuple(canon_ref(x) for x in v))
     return sandbox.canon(v)
 
